@@ -324,7 +324,7 @@ class ExponentiatedGradient(BaseEstimator, MetaEstimatorMixin):
 
         if isinstance(self.constraints, ClassificationMoment):
             positive_probs = self._pmf_predict(X)[:, 1]
-            return (positive_probs >= random_state.rand(len(positive_probs))) * 1
+            return (positive_probs > random_state.rand(len(positive_probs))) * 1
         else:
             pred = self._pmf_predict(X)
             randomized_pred = np.zeros(pred.shape[0])
